@@ -19,7 +19,7 @@ class History:
 
     def __init__(self, binary, names, tree, lock=None, structured=False, use_cache=None, base=0, maxid=None,
                  pad=0, crlf=False, unicode_prelude=False, bad=(), extra_files=None, tmp_on_other_fs=False,
-                 label=None, config_class="ok", structured_key="explicit", extensions=None, opaque=False):
+                 label=None, config_class="ok", structured_key="explicit", extensions=None, opaque=False, tmp_leftovers=False):
         self.binary = binary
         self.names = list(names)
         self.structured = structured
@@ -46,6 +46,18 @@ class History:
             os.makedirs(os.path.dirname(p), exist_ok=True)
             with open(p, "wb") as fh:
                 fh.write(data if isinstance(data, bytes) else data.encode())
+        if tmp_leftovers:
+            # what a killed earlier run leaves behind: old and fresh scratch files, and an unrelated file
+            import time as _t
+            for i, age in enumerate((7200, 30)):
+                pth = os.path.join(self.proj.tmp, "breadlog-00000000-0000-4000-8000-%012d.tmp" % i)
+                with open(pth, "w") as fh:
+                    fh.write("fn leftover() {}\n")
+                os.utime(pth, (_t.time() - age, _t.time() - age))
+            with open(os.path.join(self.proj.tmp, "unrelated.txt"), "w") as fh:
+                fh.write("x\n")
+            os.utime(os.path.join(self.proj.tmp, "unrelated.txt"), (_t.time() - 7200, _t.time() - 7200))
+        self.tmp_baseline = len(self.proj.tmp_entries())
         self._apply_config_class()
         self.events.append({"ev": "init", "files": self._abs_tree(self.tree), "lock": self.abs_lock,
                             "maxid": self.maxid, "label": self.label})
@@ -292,7 +304,7 @@ class History:
         cnt = r.inserted_count() if mode == "edit" else None
         exitc = {0: 0, "nonzero": 2, "signal": 130, "killed": 137, "panic": 101, "timeout": 124}[r.exit_class]
         self.events.append({"ev": "end", "exit": exitc, "files": self._abs_tree(self.tree), "lock": self.abs_lock,
-                            "cls": cls, "pure": pure, "tmpleft": len(P.tmp_entries()), "snapeq": snapeq,
+                            "cls": cls, "pure": pure, "tmpleft": max(0, len(P.tmp_entries()) - self.tmp_baseline), "snapeq": snapeq,
                             "others_same": others_same, "reported": sorted(reported), "total": total,
                             "count": cnt if cnt is not None else -1, "rc": r.rc if r.rc is not None else -1,
                             "pos_match": pos_match})
